@@ -1277,27 +1277,9 @@ struct DgWait {
     prev_id: Option<u16>,
 }
 
-/// Callers parked in recv() on a live socket with a request sent, oldest
-/// caller first. Also records IDs / budget start of every datagram seen.
-fn dg_waiting(core: &mut Core, sh: &Arc<Mutex<DgShared>>, seen: &mut usize) -> Vec<DgWait> {
+/// Callers parked in recv() on a live socket with a request sent, by caller.
+fn dg_waiting(sh: &Arc<Mutex<DgShared>>) -> Vec<DgWait> {
     let g = sh.lock().unwrap();
-    // learn new sockets' requests
-    let mut learnt = Vec::new();
-    for (si, s) in g.socks.iter().enumerate() {
-        if si >= *seen && !s.sent.is_empty() {
-            let (idx, id, q) = parse_request(&s.sent[0], "dgram");
-            if idx != s.owner || core.reqs[idx].q != q {
-                eprintln!("MACHINERY: dgram: datagram does not belong to the polling caller");
-                std::process::exit(2);
-            }
-            learnt.push((idx, id, s.sent_at));
-        }
-    }
-    // sockets are learnt once they have sent; a socket without a send yet is re-examined
-    let mut new_seen = *seen;
-    while new_seen < g.socks.len() && (!g.socks[new_seen].sent.is_empty() || g.socks[new_seen].dropped) {
-        new_seen += 1;
-    }
     let mut out = Vec::new();
     for (si, s) in g.socks.iter().enumerate() {
         if s.dropped || s.sent.is_empty() || !s.in_recv || !s.inbox.is_empty() {
@@ -1307,16 +1289,6 @@ fn dg_waiting(core: &mut Core, sh: &Arc<Mutex<DgShared>>, seen: &mut usize) -> V
         let prev_id = g.socks[..si].iter().rev().find(|p| p.owner == idx && !p.sent.is_empty()).map(|p| parse_request(&p.sent[0], "dgram").1);
         out.push(DgWait { req: idx, sock: si, id, q, prev_id });
     }
-    drop(g);
-    for (idx, id, at) in learnt.into_iter().skip(0) {
-        if !core.reqs[idx].ids.contains(&id) || true {
-            // one entry per socket (the same random ID twice is possible)
-        }
-        let _ = at;
-        let _ = id;
-        let _ = idx;
-    }
-    *seen = new_seen;
     out.sort_by_key(|w| w.req);
     out
 }
@@ -1392,7 +1364,6 @@ async fn run_dgram(g: &Global, cfg: &DgramCfg, ch: Arc<Mutex<Chooser>>) {
     core.budget = Some(DG_READ_TIMEOUT * (1 + cfg.retries as u32));
     let mut tr: Option<Slot<()>> = None;
     let mut learnt: Vec<bool> = Vec::new();
-    let mut seen = 0usize;
     let mut idle_ticks = 0;
 
     for _step in 0..64 {
@@ -1401,7 +1372,7 @@ async fn run_dgram(g: &Global, cfg: &DgramCfg, ch: Arc<Mutex<Chooser>>) {
             break;
         }
         dg_learn(&mut core, &sh, &mut learnt);
-        let waiting = dg_waiting(&mut core, &sh, &mut seen);
+        let waiting = dg_waiting(&sh);
         let ex = format!("{:?}|t{:?}", waiting.iter().map(|w| (w.req, w.prev_id.is_some())).collect::<Vec<_>>(), core.reqs.iter().map(|r| r.ids.len()).collect::<Vec<_>>());
         core.state(&ex);
 
@@ -1537,6 +1508,366 @@ async fn run_dgram(g: &Global, cfg: &DgramCfg, ch: Arc<Mutex<Chooser>>) {
 }
 
 // ---------------------------------------------------------------------------
+// multi_stream and dgram_stream harness
+// ---------------------------------------------------------------------------
+
+#[derive(Default)]
+struct TcpShared {
+    conns: Vec<Arc<Mutex<StreamState>>>,
+    connect_calls: u32,
+    refused: u32,
+}
+
+struct TcpConnect {
+    sh: Arc<Mutex<TcpShared>>,
+    ch: Arc<Mutex<Chooser>>,
+    allow_refuse: bool,
+}
+impl std::fmt::Debug for TcpConnect {
+    fn fmt(&self, f: &mut std::fmt::Formatter<'_>) -> std::fmt::Result {
+        f.write_str("TcpConnect")
+    }
+}
+
+impl AsyncConnect for TcpConnect {
+    type Connection = MockStream;
+    type Fut = Pin<Box<dyn Future<Output = Result<MockStream, io::Error>> + Send + Sync>>;
+    fn connect(&self) -> Self::Fut {
+        let refuse = self.allow_refuse && self.ch.lock().unwrap().choose(2, "tcp-connect") == 1;
+        let mut sh = self.sh.lock().unwrap();
+        sh.connect_calls += 1;
+        if refuse {
+            sh.refused += 1;
+            return Box::pin(std::future::ready(Err(io::Error::new(io::ErrorKind::ConnectionRefused, "mock connection refused"))));
+        }
+        let st = Arc::new(Mutex::new(StreamState::default()));
+        sh.conns.push(st.clone());
+        let m = MockStream { st, ch: self.ch.clone(), wf: WFaults { enabled: false, all_cuts: false } };
+        Box::pin(std::future::ready(Ok(m)))
+    }
+}
+
+#[derive(Clone, Debug)]
+struct MultiCfg {
+    dgram_first: bool,
+    plan: Vec<usize>,
+    udp_tc: bool,
+    udp_retries: u8,
+    allow_refuse: bool,
+}
+impl MultiCfg {
+    fn json(&self) -> Value {
+        if self.dgram_first {
+            json!({"plan": self.plan, "udp_default_reply_truncated": self.udp_tc, "udp_max_retries": self.udp_retries, "tcp_connect_may_be_refused": self.allow_refuse})
+        } else {
+            json!({"plan": self.plan, "tcp_connect_may_be_refused": self.allow_refuse})
+        }
+    }
+}
+
+const MS_TICK: Duration = Duration::from_secs(64);
+const MS_UDP_TIMEOUT: Duration = Duration::from_secs(60);
+const MS_RESPONSE_TIMEOUT: Duration = Duration::from_secs(200);
+
+#[derive(Clone, Debug)]
+enum MAct {
+    Submit,
+    Udp(usize, RKind),
+    UdpTcWrongId(usize),
+    UdpGarbage(usize),
+    UdpRecvErr(usize),
+    Tcp(usize, RKind),
+    TcpWrongQ(usize),
+    TcpStale(usize),
+    TcpEof(usize),
+    TcpShort(usize),
+    Tick,
+    Cancel(usize),
+    Finish,
+}
+
+async fn run_multi(g: &Global, cfg: &MultiCfg, ch: Arc<Mutex<Chooser>>) {
+    let tname = if cfg.dgram_first { "dgram_stream" } else { "multi_stream" };
+    let mut core = Core::new(g, tname, cfg.json(), ch.clone(), &cfg.plan);
+    let tsh = Arc::new(Mutex::new(TcpShared::default()));
+    let tcp = TcpConnect { sh: tsh.clone(), ch: ch.clone(), allow_refuse: cfg.allow_refuse };
+    let dsh = Arc::new(Mutex::new(DgShared::default()));
+    let mut msc = multi_stream::Config::default();
+    msc.set_response_timeout(MS_RESPONSE_TIMEOUT);
+    let conn: Box<dyn SendRequest<Rq>>;
+    let transport;
+    if cfg.dgram_first {
+        let dgc = DgConnect { sh: dsh.clone(), ch: ch.clone(), current: core.current.clone(), faults: false };
+        let mut dc = dgram::Config::new();
+        dc.set_read_timeout(MS_UDP_TIMEOUT);
+        dc.set_max_retries(cfg.udp_retries);
+        let (c, t) = dgram_stream::Connection::<DgConnect, Rq>::with_config(dgc, tcp, dgram_stream::Config::from_parts(dc, msc));
+        conn = Box::new(c);
+        transport = t;
+        core.budget = Some(MS_UDP_TIMEOUT * (1 + cfg.udp_retries as u32) + MS_RESPONSE_TIMEOUT);
+    } else {
+        let (c, t) = multi_stream::Connection::<Rq>::with_config(tcp, msc);
+        conn = Box::new(c);
+        transport = t;
+        core.budget = Some(MS_RESPONSE_TIMEOUT);
+    }
+    let mut conn = Some(conn);
+    let mut tr = Some(Slot::new(transport.run()));
+    let mut learnt: Vec<bool> = Vec::new();
+    let mut entries: Vec<Entry> = Vec::new();
+    let mut fatal: Vec<bool> = Vec::new();
+    // (caller, connect() calls before, TCP frames of the caller before)
+    let mut tc_expect: Vec<(usize, u32, usize)> = Vec::new();
+    let mut tcp_frames_of: Vec<usize> = vec![0; cfg.plan.len()];
+    let mut ticks = 0;
+
+    for _step in 0..64 {
+        core.quiesce(&mut tr);
+        if core.aborted {
+            break;
+        }
+        if cfg.dgram_first {
+            dg_learn(&mut core, &dsh, &mut learnt);
+        }
+        let conns: Vec<Arc<Mutex<StreamState>>> = tsh.lock().unwrap().conns.clone();
+        while fatal.len() < conns.len() {
+            fatal.push(false);
+            core.note(format!("peer accepts stream connection #{}", fatal.len() - 1));
+        }
+        for (ci, st) in conns.iter().enumerate() {
+            for f in take_frames(st) {
+                let (idx, id, q) = parse_request(&f, "tcp");
+                if idx >= core.reqs.len() || core.reqs[idx].q != q {
+                    eprintln!("MACHINERY: tcp: frame does not belong to any caller");
+                    std::process::exit(2);
+                }
+                core.learn_id(idx, id);
+                tcp_frames_of[idx] += 1;
+                if !cfg.dgram_first && core.reqs[idx].start.is_none() {
+                    // unreachable: start is set at submission
+                }
+                let dead = fatal[ci] || st.lock().unwrap().dropped;
+                entries.push(Entry { conn: ci, req: idx, id, q, open: !dead });
+                core.note(format!("peer sees request of caller {idx} with id {id} on stream #{ci}"));
+            }
+            if st.lock().unwrap().dropped {
+                for e in entries.iter_mut().filter(|e| e.conn == ci) {
+                    e.open = false;
+                }
+            }
+        }
+        // TC over datagram => a stream attempt is observed
+        let calls_now = tsh.lock().unwrap().connect_calls;
+        for (r, calls, frames) in std::mem::take(&mut tc_expect) {
+            if core.reqs[r].cancelled {
+                continue;
+            }
+            if calls_now == calls && tcp_frames_of[r] == frames {
+                core.violate(
+                    "C15|dgram_stream|truncated-answer|no-stream-attempt".into(),
+                    format!("request {r} received a matching TC=1 datagram but neither a stream connect nor a request on a stream followed; status {}", core.req_status()),
+                );
+            } else {
+                core.count("tc.stream-attempt-observed");
+            }
+        }
+        let live = |ci: usize| -> bool { !fatal[ci] && !conns[ci].lock().unwrap().dropped };
+        let waiting = if cfg.dgram_first { dg_waiting(&dsh) } else { Vec::new() };
+        let open: Vec<usize> = (0..entries.len()).filter(|i| entries[*i].open && live(entries[*i].conn)).collect();
+        let ex = format!(
+            "{:?}|{:?}|{:?}|c{}",
+            waiting.iter().map(|w| w.req).collect::<Vec<_>>(),
+            entries.iter().map(|e| (e.conn, e.req, e.id, e.open)).collect::<Vec<_>>(),
+            (0..conns.len()).map(|c| live(c)).collect::<Vec<_>>(),
+            calls_now
+        );
+        core.state(&ex);
+
+        let next_unsub = (0..core.reqs.len()).find(|i| !core.reqs[*i].submitted);
+        let any_pending = (0..core.reqs.len()).any(|i| core.pending(i));
+        let udp_default = if cfg.udp_tc { RKind::Tc } else { RKind::Answer };
+        let mut menu: Vec<MAct> = Vec::new();
+        let default_kind: u8;
+        if next_unsub.is_some() {
+            menu.push(MAct::Submit);
+            default_kind = 0;
+        } else if !waiting.is_empty() {
+            menu.push(MAct::Udp(0, udp_default));
+            default_kind = 1;
+        } else if !open.is_empty() {
+            menu.push(MAct::Tcp(open[0], RKind::Answer));
+            default_kind = 2;
+        } else if any_pending {
+            menu.push(MAct::Tick);
+            default_kind = 3;
+        } else {
+            menu.push(MAct::Finish);
+            default_kind = 4;
+        }
+        for (wi, _) in waiting.iter().enumerate() {
+            for k in [RKind::Answer, RKind::Tc] {
+                if !(default_kind == 1 && wi == 0 && k == udp_default) {
+                    menu.push(MAct::Udp(wi, k));
+                }
+            }
+            menu.push(MAct::UdpTcWrongId(wi));
+            menu.push(MAct::UdpGarbage(wi));
+            menu.push(MAct::UdpRecvErr(wi));
+        }
+        for &e in &open {
+            if !(default_kind == 2 && e == open[0]) {
+                menu.push(MAct::Tcp(e, RKind::Answer));
+            }
+            menu.push(MAct::TcpWrongQ(e));
+            menu.push(MAct::Tcp(e, RKind::HdrErr));
+            menu.push(MAct::Tcp(e, RKind::AnswerTc));
+        }
+        if let Some(c) = (0..entries.len()).rev().find(|i| !entries[*i].open && live(entries[*i].conn)) {
+            menu.push(MAct::TcpStale(c));
+        }
+        for ci in 0..conns.len() {
+            if live(ci) {
+                menu.push(MAct::TcpEof(ci));
+                menu.push(MAct::TcpShort(ci));
+            }
+        }
+        if any_pending && default_kind != 3 {
+            menu.push(MAct::Tick);
+        }
+        for i in 0..core.reqs.len() {
+            if core.pending(i) {
+                menu.push(MAct::Cancel(i));
+            }
+        }
+        let c = core.choose(menu.len(), "ms-step");
+        let act = menu[c].clone();
+        core.transitions += 1;
+        let tr_alive = tr.as_ref().map(|t| t.alive()).unwrap_or(false);
+
+        match act {
+            MAct::Submit => {
+                let i = next_unsub.unwrap();
+                core.count("action.submit");
+                if !cfg.dgram_first {
+                    core.reqs[i].start = Some(Instant::now());
+                }
+                if let Some(c) = conn.as_ref() {
+                    core.submit(c, i);
+                }
+            }
+            MAct::Udp(wi, kind) => {
+                let w = waiting[wi].clone();
+                let s = core.next_serial();
+                let msg = mk_resp(w.id, w.q, kind, w.req, s);
+                core.note(format!("peer -> caller {} over datagram: {kind:?}", w.req));
+                core.count(&format!("action.udp.{kind:?}"));
+                core.delivered.push(Delivered { bytes: msg.clone(), udp: true });
+                if core.pending(w.req) {
+                    if kind == RKind::Tc {
+                        tc_expect.push((w.req, calls_now, tcp_frames_of[w.req]));
+                    } else {
+                        core.expect.push((w.req, msg.clone()));
+                    }
+                }
+                dg_feed(&dsh, w.sock, Ok(msg));
+            }
+            MAct::UdpTcWrongId(wi) => {
+                let w = waiting[wi].clone();
+                let s = core.next_serial();
+                let msg = mk_resp(w.id ^ 0x0100, w.q, RKind::Tc, w.req, s);
+                core.note(format!("peer -> caller {} over datagram: TC with another id", w.req));
+                core.count("action.udp.TcWrongId");
+                core.delivered.push(Delivered { bytes: msg.clone(), udp: true });
+                dg_feed(&dsh, w.sock, Ok(msg));
+            }
+            MAct::UdpGarbage(wi) => {
+                let w = waiting[wi].clone();
+                core.note(format!("peer -> caller {} over datagram: garbage", w.req));
+                core.count("action.udp.Garbage");
+                core.delivered.push(Delivered { bytes: vec![0xEE; 11], udp: true });
+                dg_feed(&dsh, w.sock, Ok(vec![0xEE; 11]));
+            }
+            MAct::UdpRecvErr(wi) => {
+                let w = waiting[wi].clone();
+                core.note(format!("datagram socket of caller {} reports an error", w.req));
+                core.count("action.udp.RecvErr");
+                dg_feed(&dsh, w.sock, Err(()));
+            }
+            MAct::Tcp(e, kind) => {
+                let en = entries[e].clone();
+                let s = core.next_serial();
+                let msg = mk_resp(en.id, en.q, kind, en.req, s);
+                core.note(format!("peer answers caller {} id {} on stream #{} with {kind:?}", en.req, en.id, en.conn));
+                core.count(&format!("action.tcp.{kind:?}"));
+                feed(&conns[en.conn], framed(&msg));
+                account_frame(&mut core, &mut entries, en.conn, tr_alive, &msg, false);
+            }
+            MAct::TcpWrongQ(e) => {
+                let en = entries[e].clone();
+                let s = core.next_serial();
+                let msg = mk_resp(en.id, 2, RKind::Answer, en.req, s);
+                core.note(format!("peer answers id {} on stream #{} with another question", en.id, en.conn));
+                core.count("action.tcp.WrongQ");
+                feed(&conns[en.conn], framed(&msg));
+                account_frame(&mut core, &mut entries, en.conn, tr_alive, &msg, false);
+            }
+            MAct::TcpStale(e) => {
+                let en = entries[e].clone();
+                let s = core.next_serial();
+                let msg = mk_resp(en.id, en.q, RKind::Answer, en.req, s);
+                core.note(format!("peer re-sends an answer for closed caller {} id {} on stream #{}", en.req, en.id, en.conn));
+                core.count("action.tcp.Stale");
+                feed(&conns[en.conn], framed(&msg));
+                account_frame(&mut core, &mut entries, en.conn, tr_alive, &msg, false);
+            }
+            MAct::TcpEof(ci) | MAct::TcpShort(ci) => {
+                if matches!(act, MAct::TcpShort(_)) {
+                    core.note(format!("peer sends an 11-octet frame on stream #{ci}"));
+                    core.count("action.tcp.Short");
+                    feed(&conns[ci], framed(&[0xEE; 11]));
+                } else {
+                    core.note(format!("peer closes stream #{ci}"));
+                    core.count("action.tcp.Eof");
+                    feed_eof(&conns[ci], false);
+                }
+                fatal[ci] = true;
+                for e in entries.iter_mut().filter(|e| e.conn == ci) {
+                    e.open = false;
+                }
+            }
+            MAct::Tick => {
+                core.count("action.tick");
+                core.note(format!("virtual time advances by {MS_TICK:?}"));
+                ticks += 1;
+                if ticks > 16 {
+                    break;
+                }
+                tokio::time::advance(MS_TICK).await;
+            }
+            MAct::Cancel(i) => core.cancel(i),
+            MAct::Finish => {
+                let c = conn.take();
+                let _ = guard(move || drop(c));
+                core.quiesce(&mut tr);
+                break;
+            }
+        }
+    }
+    core.quiesce(&mut tr);
+    let refused = tsh.lock().unwrap().refused;
+    if refused > 0 {
+        core.count("tcp.connect-refused-executions");
+    }
+    if tsh.lock().unwrap().conns.len() > 1 {
+        core.count("tcp.reconnect-executions");
+    }
+    core.finish();
+    let t = tr.take();
+    let _ = guard(move || drop(t));
+    let _ = guard(move || drop(conn));
+}
+
+// ---------------------------------------------------------------------------
 // driver
 // ---------------------------------------------------------------------------
 
@@ -1544,6 +1875,44 @@ async fn run_dgram(g: &Global, cfg: &DgramCfg, ch: Arc<Mutex<Chooser>>) {
 enum Case {
     Stream(StreamCfg),
     Dgram(DgramCfg),
+    Multi(MultiCfg),
+}
+
+impl Case {
+    fn tname(&self) -> &'static str {
+        match self {
+            Case::Stream(_) => "stream",
+            Case::Dgram(_) => "dgram",
+            Case::Multi(c) => {
+                if c.dgram_first {
+                    "dgram_stream"
+                } else {
+                    "multi_stream"
+                }
+            }
+        }
+    }
+    fn cfg_json(&self) -> Value {
+        match self {
+            Case::Stream(c) => c.json(),
+            Case::Dgram(c) => c.json(),
+            Case::Multi(c) => c.json(),
+        }
+    }
+}
+
+fn all_cases() -> Vec<Case> {
+    let mut cases: Vec<Case> = Vec::new();
+    for c in stream_cfgs() {
+        cases.push(Case::Stream(c));
+    }
+    for c in dgram_cfgs() {
+        cases.push(Case::Dgram(c));
+    }
+    for c in multi_cfgs() {
+        cases.push(Case::Multi(c));
+    }
+    cases
 }
 
 fn run_case(g: &Global, case: &Case, ch: &mut Chooser) {
@@ -1554,6 +1923,7 @@ fn run_case(g: &Global, case: &Case, ch: &mut Chooser) {
         match case {
             Case::Stream(c) => run_stream(g, c, sh2).await,
             Case::Dgram(c) => run_dgram(g, c, sh2).await,
+            Case::Multi(c) => run_multi(g, c, sh2).await,
         }
     });
     drop(rt);
@@ -1585,6 +1955,30 @@ fn dgram_cfgs() -> Vec<DgramCfg> {
     v
 }
 
+fn multi_cfgs() -> Vec<MultiCfg> {
+    let mut v = Vec::new();
+    // dgram_stream
+    for plan in [vec![0], vec![0, 0], vec![0, 1]] {
+        for udp_tc in [true, false] {
+            for udp_retries in [0u8, 1] {
+                // connect refusal only with a single caller (see assumptions)
+                let refuse: &[bool] = if plan.len() == 1 { &[false, true] } else { &[false] };
+                for &allow_refuse in refuse {
+                    v.push(MultiCfg { dgram_first: true, plan: plan.clone(), udp_tc, udp_retries, allow_refuse });
+                }
+            }
+        }
+    }
+    // multi_stream
+    for plan in [vec![0], vec![0, 0], vec![0, 1]] {
+        let refuse: &[bool] = if plan.len() == 1 { &[false, true] } else { &[false] };
+        for &allow_refuse in refuse {
+            v.push(MultiCfg { dgram_first: false, plan: plan.clone(), udp_tc: false, udp_retries: 0, allow_refuse });
+        }
+    }
+    v
+}
+
 fn main() {
     let ctx = Ctx::new("C15", "model_checking");
     let thorough = !ctx.quick();
@@ -1598,16 +1992,32 @@ fn main() {
         outcomes: Stats::new(),
         verbose: ctx.replay.is_some(),
     };
+    if let Some(path) = ctx.replay.clone() {
+        let text = std::fs::read_to_string(&path).expect("replay file");
+        let v: Value = serde_json::from_str(&text).expect("replay json");
+        let case = &v["case"];
+        g.all_cuts.store(case["all_cuts"].as_bool().unwrap_or(false), Ordering::Relaxed);
+        let choices: Vec<u32> = case["choices"].as_array().expect("choices").iter().map(|c| c.as_u64().unwrap() as u32).collect();
+        let t = case["transport"].as_str().unwrap_or("");
+        let want = case["cfg"].to_string();
+        let found = all_cases().into_iter().find(|c| c.tname() == t && c.cfg_json().to_string() == want);
+        let Some(c) = found else {
+            eprintln!("MACHINERY: replay names an unknown case {t} {want}");
+            std::process::exit(2);
+        };
+        println!("replaying {t} {want} choices {choices:?}");
+        let mut ch = Chooser::from_choices(&choices);
+        run_case(&g, &c, &mut ch);
+        println!("choice trace: {:?}", ch.describe());
+        ctx.finish(
+            json!({"states": g.states.distinct_count(), "transitions": g.transitions.load(Ordering::Relaxed), "traces_validated_against_impl": 1, "evaluations": 1, "distinct_nontrivial": g.stats.distinct_count(), "rule": "replay of one case", "exhaustive": false, "samples": []}),
+            &[],
+        );
+    }
     let bound = if thorough { 3 } else { 2 };
     let mut per_cfg = Vec::new();
     let mut capped_any = false;
-    let mut cases: Vec<Case> = Vec::new();
-    for c in stream_cfgs() {
-        cases.push(Case::Stream(c));
-    }
-    for c in dgram_cfgs() {
-        cases.push(Case::Dgram(c));
-    }
+    let cases = all_cases();
     // pass 1: handful of cut points, full deviation bound;
     // pass 2 (thorough only): every cut point of every frame, <= 2 deviations
     let passes: Vec<(bool, usize)> = if thorough { vec![(false, 3), (true, 2)] } else { vec![(false, 2)] };
